@@ -110,7 +110,15 @@ def _wiring(prog, rep, fi, call):
         local = wrapped_callable(v) if k in ("fun", "jac", "hess") else next((n.id for n in ast.walk(v) if isinstance(n, ast.Name) and cache_key_of(n.id)), None)
         got = cache_key_of(local) if local else None
         ok = got == key
-        rep.ob("R09.1", f"{fname}:minimize({k}=)", ok, f"{k} is the cache entry {key!r}" if ok else f"{k} is fed from cache entry {got!r} (expected {key!r})", loc=f"{fi.module.rel}:{call.lineno}", detail="role")
+        why_ok = f"{k} is the cache entry {key!r}"
+        if not ok and k == "bounds":
+            # bounds may also be computed per solve from the solver's variable list (they are mutable user state)
+            for nm in [n.id for n in ast.walk(v) if isinstance(n, ast.Name)]:
+                for val in assigns.get(nm, []):
+                    if isinstance(val, ast.Call) and isinstance(val.func, ast.Name) and "bound" in val.func.id and val.args and src(val.args[0]) == "variables":
+                        ok = True
+                        why_ok = f"bounds are computed on every solve by {val.func.id}(variables) (checked by R09.3)"
+        rep.ob("R09.1", f"{fname}:minimize({k}=)", ok, why_ok if ok else f"{k} is fed from cache entry {got!r} (expected {key!r})", loc=f"{fi.module.rel}:{call.lineno}", detail="role")
     for k in ("x0", "method", "tol"):
         ok = k in kw and src(kw[k]) == k
         rep.ob("R09.1", f"{fname}:minimize({k}=)", ok, f"{k} is forwarded unchanged" if ok else f"{k} is not forwarded unchanged ({src(kw[k]) if k in kw else 'missing'})", loc=f"{fi.module.rel}:{call.lineno}", detail="forwarded")
